@@ -188,6 +188,20 @@ def sweep(desc):
     return out
 
 
+def run_multi(desc):
+    """refinement of candidates that span TWO gene structures in one call (as genotype() hands them over when several
+    structures survive): every structure's evidence goes through the quality filter"""
+    from aldy import major, minor
+    from aldy.solutions import CNSolution
+    gene, gid, prof, cn_sol, cov = c04.build(desc)
+    cn2 = CNSolution(gene, 0, sorted(list(desc["structure"]) + ["1"]))
+    ms = major.estimate_major(gene, cov, cn_sol, "cbc")[:2] + major.estimate_major(gene, cov, cn2, "cbc")[:2]
+    res = minor.estimate_minor(gene, cov, ms, "cbc") if ms else []
+    return sorted((tuple(sorted(s.major_solution.cn_solution.solution.items())),
+                   tuple(sorted((a.major, a.minor, tuple(sorted((m.pos, m.op) for m in a.added)), tuple(sorted((m.pos, m.op) for m in a.missing))) for a in s.solution)),
+                   round(s.score, 6)) for s in res)
+
+
 def tie(ctx):
     r = lib.rng("c15")
     quick = ctx["tier"] == "quick"
@@ -210,6 +224,14 @@ def tie(ctx):
         stats["pairs"] += 1
         if kb != kp:
             violations.append({"why": f"adding sub-threshold observations changes the result: major {kb[0][:2]} -> {kp[0][:2]}, minor {kb[1][:1]} -> {kp[1][:1]}", "input": d, "signature": "c15:low_quality_changes_result"})
+        if stats["pairs"] % 3 == 2 and "1" in base["gene"].cn_configs:
+            stats["multi_structure_pairs"] += 1
+            try:
+                mb, mp = run_multi(with_extras(d, "base")), run_multi(with_extras(d, "plus"))
+            except Exception as e:
+                mb, mp = None, "raised " + type(e).__name__
+            if mb != mp:
+                violations.append({"why": f"candidates of two gene structures refined in one call: adding sub-threshold observations changes the result {str(mb)[:200]} -> {str(mp)[:200]}", "input": d, "signature": "c15:low_quality_changes_multi_structure_refinement"})
         # thresholds are read when a stage runs, not when the evidence was first used
         if stats["pairs"] % 3 == 1:
             stats["threshold_sweeps"] += 1
